@@ -30,6 +30,21 @@ ASSUMPTIONS = [
     "runs in which the implementation raises (assert dotprod < 10e-12 inside orthogonalize, empty minimum, division by "
     "zero) do not return a layout and are outside the property; they are counted in the evidence",
     "movable terminals are not generated: recenter_rectangles divides by the (zero) rectangle area of a terminal",
+    "several calls on one Spectral object: the model's object state is what __init__ stores once (graph, radii, fixed flags, "
+    "the centre matrix) plus the modules; the model is built from the netlist observed after construction and then runs on "
+    "ITS OWN state from call to call (only the iteration vectors of each call are taken from the record). The centre matrix "
+    "is faithful to the code: a call with trials > 0 wipes the movable entries for good, init mode reads the matrix as "
+    "stored at construction (not the modules' present centres) - neither touches the property",
+    "a history ends at the first call that raises; a call that raised inside the abstracted eigen-iteration is not replayed",
+    "recenter kernel (kind rc): a distance epsilon is always defined when recenter_rectangles runs (given, or the one a "
+    "Netlist holding the module derives) because the method never runs outside a netlist in FRAME; an axis is compared "
+    "exactly when every operation of the reference computation (w*h, sums left to right, one division, centre - quotient, "
+    "coordinate + increment) is exact in binary64 on that history (decided on the inputs alone), else within 16 roundings "
+    "at magnitude 64; the kernel oracle accepts a position within max(64e-9, 2 * distance epsilon) of the centre",
+    "shared Point objects (a centre shared by a module and its square) are not generated: create_square never runs for a "
+    "movable hard module with rectangles, and the netlist reader gives every module its own centre Point",
+    "kind cli (tools.spectral.spectral.main) is observed through the files it reads and writes and checked by the direct "
+    "oracle only; module and net order of the output file are not compared",
 ]
 
 THR = 10e-10
@@ -725,6 +740,71 @@ def run_chain(case):
     return obs
 
 
+def gen_cli(rng):
+    """the command line tool: netlist file, die as '<W>x<H>' / die file / YAML text, --init or --bestof, output file"""
+    case = decorate(rng, gen_layout(rng))
+    case["kind"] = "cli"
+    case["die_form"] = rng.choice(["string", "string", "file", "text"])
+    return case
+
+
+def canon_snapshot(sn):
+    """module and net order do not matter when the result is read back from a file"""
+    return {"mods": sorted(sn["mods"], key=lambda m: m["name"]),
+            "nets": sorted([[sorted(e[0]), e[1]] for e in sn["nets"]], key=repr)}
+
+
+def run_cli(case):
+    import shutil
+    import tempfile
+    from ruamel.yaml import YAML
+    from frame.geometry.geometry import Rectangle
+    from frame.netlist.netlist import Netlist
+    import tools.spectral.spectral as SP
+    core.WORK_ROOT.mkdir(exist_ok=True)
+    d = tempfile.mkdtemp(prefix="c14cli", dir=str(core.WORK_ROOT))
+    Rectangle.undefine_epsilon()
+    try:
+        text = layout_yaml(case)
+        inp, out = f"{d}/in.yaml", f"{d}/out.yaml"
+        with open(inp, "w") as f:
+            f.write(text)
+        before = snap(Netlist(text))
+        Rectangle.undefine_epsilon()
+
+        def num(x):
+            x = float(x)
+            return str(int(x)) if case.get("ints") and x == int(x) else repr(x)
+        die = f"{num(case['W'])}x{num(case['H'])}"
+        if case["die_form"] == "text":
+            die = f"{{width: {num(case['W'])}, height: {num(case['H'])}}}"
+        elif case["die_form"] == "file":
+            die = f"{d}/die.yaml"
+            with open(die, "w") as f:
+                f.write(f"width: {num(case['W'])}\nheight: {num(case['H'])}\n")
+        args = [inp, "--die", die, "-o", out] + (["--init"] if int(case["nf"]) == 0 else ["--bestof", str(int(case["nf"]))])
+        random.seed(int(case["seed"]))
+        obs = guarded(lambda: SP.main("spectral", args))
+        obs["before"] = canon_snapshot(before)
+        if "ok" in obs:
+            Rectangle.undefine_epsilon()
+            with open(out) as f:
+                tree = YAML(typ="safe").load(f.read())
+            after = snap(Netlist(out))
+            b_by_name = {m["name"]: m for m in before["mods"]}
+            for m in after["mods"]:
+                c = tree["Modules"][m["name"]].get("center")
+                m["center"] = None if c is None else [float(c[0]), float(c[1])]     # as written, not as re-derived
+                mb = b_by_name.get(m["name"])
+                if mb and len(mb["rects"]) == len(m["rects"]):
+                    m["rects"] = [list(r[:4]) + list(rb[4:]) for r, rb in zip(m["rects"], mb["rects"])]
+            obs["after"] = canon_snapshot(after)
+        return obs
+    finally:
+        Rectangle.undefine_epsilon()
+        shutil.rmtree(d, ignore_errors=True)
+
+
 RC_YAML = """Modules: {{
   H: {{rectangles: [{rs}], hard: true}},
   Z: {{area: 400.0, center: [50.0, 50.0]}}
@@ -839,6 +919,8 @@ def run_impl(case):
         return run_rc(case)
     if k == "chain":
         return run_chain(case)
+    if k == "cli":
+        return run_cli(case)
     if k == "normalize":
         x = fl(case["xs"])
 
@@ -1064,6 +1146,8 @@ def to_coq(case, obs):
         return f"Qceqb (wirelength {gadj(case['adj'])} {coord}) {gq(obs['ok'])}"
     if k == "rc":
         return rc_to_coq(case, obs)
+    if k == "cli":
+        return "true"                      # observed through files: the direct oracle only
     if k == "chain":
         return chain_to_coq(case, obs)
     W, H = gq(float(case["W"])), gq(float(case["H"]))
@@ -1248,7 +1332,7 @@ def oracle(case, obs):
                     if span >= 0 and abs(core.frac(y)) > span + 4 * ULP * size:
                         return f"node {i}: coordinate {y!r} in dimension {d} exceeds its span {float(span)!r}"
         return None
-    if k == "layout":
+    if k in ("layout", "cli"):
         if "ok" not in obs:
             return None
         return layout_oracle(case["W"], case["H"], obs["before"], obs["after"])
@@ -1303,6 +1387,7 @@ def run(ctx, out, replay=None):
     nd = 14 if quick else 150
     nl = 30 if quick else 450
     nc = 12 if quick else 130
+    ncli = 6 if quick else 80
     out.rule = ("kernels on dyadic vectors (normalize: entries k/8, zeros, entries at, one ulp around and near the 10e-10 "
                 "threshold, spans k/4 incl. 0, fixed flags; orthogonalize: 2-4 rows incl. the all-ones row, masses zero on "
                 "fixed nodes or not, parallel rows, all nodes fixed, normalised dot product exactly at / one unit below / above "
@@ -1339,6 +1424,8 @@ def run(ctx, out, replay=None):
         heavy.append(decorate(rng, case) if i % 2 else case)
     for i in range(nc):
         heavy.append(gen_chain(rng, sizes[(i // 6) % len(sizes)] if i % 6 == 5 else None))
+    for i in range(ncli):
+        heavy.append(gen_cli(rng))
     mon = {"calls": 0, "tiny_entries": 0, "bound_broken": 0, "worst_excess": 0.0, "returned": 0, "raised": {}}
 
     # the runs of the implementation are independent of each other (every case seeds `random` and resets the
